@@ -82,6 +82,7 @@ Inductive op :=
 | ORevokeUid (k : nat) (isuid : bool) (c : list Z) (t : Z)
 | OAttest (k : nat) (isuid : bool) (c : list Z) (t : Z)       (* uid |= key.certify(uid, SignatureType.Attestation, attested_certifications=[]) *)
 | OAddSubkey (k : nat) (label : Z) (cansign : bool) (flags : Z) (t : Z)
+| OAdoptKey (k other : nat) (t : Z)        (* key.add_subkey(<key object `other`, which has identities of its own>) *)
 | ORevokeSubkey (k : nat) (label : Z) (t : Z)
 | ORevokeKey (k : nat) (t : Z)
 | OAddRevoker (k by_ : nat) (t : Z)
@@ -119,10 +120,14 @@ Definition has_text (k : key) : bool := existsb u_isuid (p_uids k).
 Definition no_uids (k : key) : bool := match p_uids k with [] => true | _ => false end.
 (* is_public == False and is_unlocked == True *)
 Definition can_sign (o : kobj) : bool := negb (p_public (o_key o)) && negb (o_lock o =? 2).
-(* certify: exempt from "Key is not complete"; _get_key_flags needs a text user id unless there is no user id at all *)
-Definition certify_ok (o : kobj) : bool := can_sign o && (no_uids (o_key o) || has_text (o_key o)).
-(* revoke: complete key and Certify usage looked up on the first text user id *)
-Definition revoke_ok (o : kobj) : bool := can_sign o && has_text (o_key o).
+(* certify: exempt from "Key is not complete"; _get_key_flags takes the first user id, or the first user attribute when there is none
+   (repair 1d6dbd1), and a primary key always has Certify.  Before that repair a key whose identities were all attributes raised
+   (StopIteration): certify_ok_old *)
+Definition certify_ok (o : kobj) : bool := can_sign o.
+Definition certify_ok_old (o : kobj) : bool := can_sign o && (no_uids (o_key o) || has_text (o_key o)).
+(* revoke: complete key (an identity of either kind); Certify usage as for certify *)
+Definition revoke_ok (o : kobj) : bool := can_sign o && negb (no_uids (o_key o)).
+Definition revoke_ok_old (o : kobj) : bool := can_sign o && has_text (o_key o).
 (* bind / revoker: complete key (hash algorithm always passed explicitly) *)
 Definition direct_ok (o : kobj) : bool := can_sign o && negb (no_uids (o_key o)).
 
@@ -233,7 +238,8 @@ Definition apply (w : world) (o : op) : world :=
       let k := o_key ob in
       if p_public k || negb (o_lock ob =? 0) then ob
       else
-        let ok := direct_ok ob && (negb cansign || has_text k) in
+        (* (before 1d6dbd1 the cross-signature of a signing subkey needed a TEXT user id on the parent: `&& (negb cansign || has_text k)`) *)
+        let ok := direct_ok ob in
         let emb := if cansign then [sign label T_PRIMARY_BINDING t None false no_info (OnSub (p_label k) label)] else [] in
         let b := {| s_core := sign (p_label k) T_SUBKEY_BINDING t None false (flags_info flags) (OnSub (p_label k) label);
                     s_emb := emb |} in
@@ -241,6 +247,11 @@ Definition apply (w : world) (o : op) : world :=
                      sk_sigs := key_or_sig [] b |} in
         (* repair 163b208: when the binding signature is refused the attachment is undone (before: the subkey stayed, unbound) *)
         if ok then set_key ob (with_subs k (sub_set sk (p_subs k))) else ob)
+  | OAdoptKey i j t =>
+    (* repair a832629: add_subkey refuses (PGPError) a key that has user ids or attributes of its own, before anything is changed -
+       and every other refusal of add_subkey (public key, key with subkeys) comes before any change as well.  Scope: `other` is an
+       existing key object WITH identities (a key without any is what OAddSubkey models, with fresh material): nothing changes *)
+    w
   | ORevokeSubkey i label t =>
     upd w i (fun ob =>
       let k := o_key ob in
@@ -348,13 +359,18 @@ Definition effective := effective_with selfsig.
 Definition effective_old := effective_with selfsig_old.
 Definition info_keyexp (info : list Z) : Z := nth 1 info (-1).
 (* PGPKey.expires_at (as an offset from key creation; -1 = None): the last text user id whose selfsig has one *)
-Definition key_expiry_with (pick : Z -> uid -> option sig) (k : key) : Z :=
+Definition key_expiry_raw (pick : Z -> uid -> option sig) (k : key) : Z :=
   fold_left (fun acc u => if u_isuid u then
                             match pick (p_label k) u with
                             | Some s => if info_keyexp (c_info (s_core s)) =? -1 then acc else info_keyexp (c_info (s_core s))
                             | None => acc
                             end
                           else acc) (p_uids k) (-1).
+(* repair 96d5157: `if expires:` - a key expiration time of zero means never, like the absence of one (before: `is not None`,
+   the key "expired" at its creation time) *)
+Definition key_expiry_with (pick : Z -> uid -> option sig) (k : key) : Z :=
+  let e := key_expiry_raw pick k in if e =? 0 then -1 else e.
+Definition key_expiry_pre96 := key_expiry_raw selfsig.
 Definition key_expiry := key_expiry_with selfsig.
 Definition key_expiry_old := key_expiry_with selfsig_old.
 (* PGPKey.revocation_signatures of the primary / of a subkey *)
